@@ -14,13 +14,12 @@ def dfltNode (d : Option Nat) (k : Nat) : Nat :=
   | some x => x
   | none => k
 
-theorem tr_switch (fuel : Nat) (env : Src.Env) (he : EnvOK cx env) (hdr : Ev) (CS : Src.Cases) (k : Nat) (b : Src.B) :
-    Src.tr fuel [] env (.switch hdr CS) k b =
-      ((Src.trCases fuel [] (brkEnv env k) CS k (tbl b).length (b.push (.halt (evInvalid "switch default"))).1).1.set (tbl b).length
-        (.silent (dfltNode (Src.trCases fuel [] (brkEnv env k) CS k (tbl b).length (b.push (.halt (evInvalid "switch default"))).1).2.2.2 k))).push
-        (.emit hdr (Src.trCases fuel [] (brkEnv env k) CS k (tbl b).length (b.push (.halt (evInvalid "switch default"))).1).2.2.1) := by
-  have e : Src.substEv env.subst hdr = hdr := by rw [he.1, substEv_nil]
-  rw [Src.tr]; simp only [e]; rfl
+theorem tr_switch (fuel : Nat) (sm : List Src.Macro) (env : Src.Env) (hdr : Ev) (CS : Src.Cases) (k : Nat) (b : Src.B) :
+    Src.tr fuel sm env (.switch hdr CS) k b =
+      ((Src.trCases fuel sm (brkEnv env k) CS k (tbl b).length (b.push (.halt (evInvalid "switch default"))).1).1.set (tbl b).length
+        (.silent (dfltNode (Src.trCases fuel sm (brkEnv env k) CS k (tbl b).length (b.push (.halt (evInvalid "switch default"))).1).2.2.2 k))).push
+        (.emit (Src.substEv env.subst hdr) (Src.trCases fuel sm (brkEnv env k) CS k (tbl b).length (b.push (.halt (evInvalid "switch default"))).1).2.2.1) := by
+  rw [Src.tr]; rfl
 
 theorem switchHdrOp_shape {hdr : Hdr} {s : St} {o : Op} {s' : St} (h : switchHdrOp hdr s = .ok (o, s')) :
     SameStk s s' ∧ ∃ n, o = ⟨n, hdr.name, hdr.params⟩ := by
@@ -38,8 +37,10 @@ theorem switchHdrOp_shape {hdr : Hdr} {s : St} {o : Op} {s' : St} (h : switchHdr
 theorem switch_pm (cx : Cx) (fuel : Nat) (env : Src.Env) (he : EnvOK cx env) (hdr : Hdr) (cs : Cases)
     (run : Nat → List BP → SwSt → M SwSt) (hn : nameOK hdr.name = true) (hne : Beh.endsFlow hdr.name = false)
     (hdef : countDefaults cs ≤ 1) (hrun : CasesC cx fuel hdr.name true cs run) :
-    PM cx (switchOf hdr cs run) (fun k b => Src.tr fuel [] env (.switch (hdrEv hdr) (toSrcCases hdr.name cs)) k b) env := by
+    PM cx (switchOf hdr cs run) (fun k b => Src.tr fuel cx.sm env (.switch (hdrEv hdr) (toSrcCases hdr.name cs)) k b) env := by
   intro s items s' h
+  have hnr : hdr.name ≠ Gen.op_return := by
+    intro e; rw [e, ctl_names.2.2.2.1] at hne; cases hne
   cases cs with
   | nil =>
     -- a switch without cases is its header operation
@@ -52,12 +53,12 @@ theorem switch_pm (cx : Cx) (fuel : Nat) (env : Src.Env) (he : EnvOK cx env) (hd
     obtain ⟨e3, o0, rfl⟩ := switchHdrOp_shape h3
     have hstk : SameStk s s' := ((sameStk_tickedLbl s 1).trans (sameStk_tickedLbl _ 1)).trans e3
     simp only [nameOK, Bool.and_eq_true, Bool.not_eq_true'] at hn
-    have htr : ∀ k b, Src.tr fuel [] env (.switch (hdrEv hdr) (toSrcCases hdr.name .nil)) k b =
-        (((b.push (.halt (evInvalid "switch default"))).1.set (tbl b).length (.silent k)).push (.emit (hdrEv hdr) (tbl b).length)) := by
+    have htr : ∀ k b, Src.tr fuel cx.sm env (.switch (hdrEv hdr) (toSrcCases hdr.name .nil)) k b =
+        (((b.push (.halt (evInvalid "switch default"))).1.set (tbl b).length (.silent k)).push (.emit (Src.substEv env.subst (hdrEv hdr)) (tbl b).length)) := by
       intro k b
-      rw [tr_switch fuel env he]
+      rw [tr_switch fuel cx.sm env]
       simp only [toSrcCases, trCases_nil, dfltNode]
-    have hgrow : ∀ k b, Grow cx.Z b (Src.tr fuel [] env (.switch (hdrEv hdr) (toSrcCases hdr.name .nil)) k b).1 := by
+    have hgrow : ∀ k b, Grow cx.Z b (Src.tr fuel cx.sm env (.switch (hdrEv hdr) (toSrcCases hdr.name .nil)) k b).1 := by
       intro k b
       rw [htr]
       exact ((Grow.push b _).set_ge (Nat.le_refl _) _).trans (Grow.push _ _)
@@ -72,16 +73,16 @@ theorem switch_pm (cx : Cx) (fuel : Nat) (env : Src.Env) (he : EnvOK cx env) (hd
     · intro l hl; simp [loneJump] at hl
     intro r i0 hp hpre k b hag m j _ _ hcont
     rw [htr] at hag ⊢
-    have hit0 : itemAt cx.rs ⟨r, i0⟩ = some (.op ⟨o0, hdr.name, hdr.params⟩) := by simpa using hp.item (d := 0) rfl
-    have hstep := lab_op hit0 hn.2
+    have hit0 : ItemC cx.cp cx.rs ⟨r, i0⟩ (.op ⟨o0, hdr.name, hdr.params⟩) := by simpa using hp.item (d := 0) rfl
+    have hstep := lab_op hit0 hn.2 (.inl hnr)
     simp only [hne, Bool.false_and, Bool.false_eq_true, if_false] at hstep
-    have hev : (⟨hdr.name, convParams hdr.params⟩ : Ev) = hdrEv hdr := rfl
+    have hev : (⟨hdr.name, convParams (hdr.params.map cx.cp.sub)⟩ : Ev) = Src.substEv env.subst (hdrEv hdr) := he.ev hdr.name hdr.params
     rw [hev, LPos.next_eq r i0 (i0 + 1) rfl] at hstep
-    obtain ⟨a1, a2⟩ := tbl_push ((b.push (.halt (evInvalid "switch default"))).1.set (tbl b).length (.silent k)) (.emit (hdrEv hdr) (tbl b).length)
+    obtain ⟨a1, a2⟩ := tbl_push ((b.push (.halt (evInvalid "switch default"))).1.set (tbl b).length (.silent k)) (.emit (Src.substEv env.subst (hdrEv hdr)) (tbl b).length)
     obtain ⟨p1, _⟩ := tbl_push b (.halt (evInvalid "switch default"))
     have hl3 : (tbl ((b.push (.halt (evInvalid "switch default"))).1.set (tbl b).length (.silent k))).length = (tbl b).length + 1 := by
       rw [tbl_set, p1]; simp
-    have hNe : cx.N[(tbl b).length + 1]? = some (.emit (hdrEv hdr) (tbl b).length) := by
+    have hNe : cx.N[(tbl b).length + 1]? = some (.emit (Src.substEv env.subst (hdrEv hdr)) (tbl b).length) := by
       rw [hag.2 _ (by omega) (by rw [a1]; simp [hl3]), a1, ← hl3]; simp
     have hNt : cx.N[(tbl b).length]? = some (.silent k) := by
       rw [hag.2 _ (Nat.le_refl _) (by rw [a1]; simp [hl3]; omega), a1, List.getElem?_append_left (by rw [hl3]; omega), tbl_set,
@@ -135,8 +136,8 @@ theorem switch_pm (cx : Cx) (fuel : Nat) (env : Src.Env) (he : EnvOK cx env) (hd
   generalize hD : rr.defaultOps = D at hS nnD
   have nnD' : NoNone D := nnD nn0
   generalize hEL : (s.tickedLbl 1).lbc + 1 = eL at *
-  have htr := fun k b => tr_switch fuel env he (hdrEv hdr) (toSrcCases hdr.name (.cons d0 n0 ps0 b0 r0)) k b
-  have hgrow : ∀ k b, Grow cx.Z b (Src.tr fuel [] env (.switch (hdrEv hdr) (toSrcCases hdr.name (.cons d0 n0 ps0 b0 r0))) k b).1 := by
+  have htr := fun k b => tr_switch fuel cx.sm env (hdrEv hdr) (toSrcCases hdr.name (.cons d0 n0 ps0 b0 r0)) k b
+  have hgrow : ∀ k b, Grow cx.Z b (Src.tr fuel cx.sm env (.switch (hdrEv hdr) (toSrcCases hdr.name (.cons d0 n0 ps0 b0 r0))) k b).1 := by
     intro k b
     rw [htr]
     exact (((Grow.push b _).trans (hS.grow k _ _)).set_ge (Nat.le_refl _) _).trans (Grow.push _ _)
@@ -154,34 +155,34 @@ theorem switch_pm (cx : Cx) (fuel : Nat) (env : Src.Env) (he : EnvOK cx env) (hd
   have hend := hcont hfalls
   rw [htr] at hag ⊢
   have gT := hS.grow k (tbl b).length (b.push (.halt (evInvalid "switch default"))).1
-  have cT := fun pC (h1 : Placed cx.rs r (i0 + 1) Hn) (h2 : Placed cx.rs r pC Cn) =>
+  have cT := fun pC (h1 : Placed cx.cp cx.rs r (i0 + 1) Hn) (h2 : Placed cx.cp cx.rs r pC Cn) =>
     hS.corr k (tbl b).length r (i0 + 1) pC h1 h2 (b.push (.halt (evInvalid "switch default"))).1
   have hdfl : hasDefault (.cons d0 n0 ps0 b0 r0) = true →
-      (Src.trCases fuel [] (brkEnv env k) (toSrcCases hdr.name (.cons d0 n0 ps0 b0 r0)) k (tbl b).length
+      (Src.trCases fuel cx.sm (brkEnv env k) (toSrcCases hdr.name (.cons d0 n0 ps0 b0 r0)) k (tbl b).length
         (b.push (.halt (evInvalid "switch default"))).1).2.2.2 ≠ none :=
-    trCases_hasdefault fuel (brkEnv env k) he.1 hdr.name _ k _ _
-  generalize hT : Src.trCases fuel [] (brkEnv env k) (toSrcCases hdr.name (.cons d0 n0 ps0 b0 r0)) k (tbl b).length
+    trCases_hasdefault fuel cx.sm (brkEnv env k) hdr.name _ k _ _
+  generalize hT : Src.trCases fuel cx.sm (brkEnv env k) (toSrcCases hdr.name (.cons d0 n0 ps0 b0 r0)) k (tbl b).length
     (b.push (.halt (evInvalid "switch default"))).1 = T at hag gT cT hdfl ⊢
   -- the node table
-  obtain ⟨a1, a2⟩ := tbl_push (T.1.set (tbl b).length (.silent (dfltNode T.2.2.2 k))) (.emit (hdrEv hdr) T.2.2.1)
+  obtain ⟨a1, a2⟩ := tbl_push (T.1.set (tbl b).length (.silent (dfltNode T.2.2.2 k))) (.emit (Src.substEv env.subst (hdrEv hdr)) T.2.2.1)
   have hlen3 : (tbl (T.1.set (tbl b).length (.silent (dfltNode T.2.2.2 k)))).length = (tbl T.1).length := by rw [tbl_set]; simp
   have g3 : Grow cx.Z b (T.1.set (tbl b).length (.silent (dfltNode T.2.2.2 k))) := ((Grow.push b _).trans gT).set_ge (Nat.le_refl _) _
-  have hNe : cx.N[(tbl T.1).length]? = some (.emit (hdrEv hdr) T.2.2.1) := by
+  have hNe : cx.N[(tbl T.1).length]? = some (.emit (Src.substEv env.subst (hdrEv hdr)) T.2.2.1) := by
     rw [hag.2 _ (by rw [← hlen3]; exact g3.len) (by rw [a1]; simp [hlen3]), a1, ← hlen3]
     simp
   have ag3 : AgreeOn cx.N cx.Z b (T.1.set (tbl b).length (.silent (dfltNode T.2.2.2 k))) := hag.sub_grow (Grow.refl b) (Grow.push _ _)
   obtain ⟨hNnt, agT⟩ := agree_set ag3 gT
   rw [a2, hlen3]
   -- positions
-  have hit0 : itemAt cx.rs ⟨r, i0⟩ = some (.op ⟨o0, hdr.name, hdr.params⟩) := hp.here' [] _ _ (by lst) (by len_omega)
-  have hpH : Placed cx.rs r (i0 + 1) Hn := hp.mid' [LItem.op ⟨o0, hdr.name, hdr.params⟩] Hn _ (by lst) (by len_omega)
-  have hitD : itemAt cx.rs ⟨r, i0 + 1 + Hn.length⟩ = some (.label (s.lbc + 1) false) :=
+  have hit0 : ItemC cx.cp cx.rs ⟨r, i0⟩ (.op ⟨o0, hdr.name, hdr.params⟩) := hp.here' [] _ _ (by lst) (by len_omega)
+  have hpH : Placed cx.cp cx.rs r (i0 + 1) Hn := hp.mid' [LItem.op ⟨o0, hdr.name, hdr.params⟩] Hn _ (by lst) (by len_omega)
+  have hitD : ItemC cx.cp cx.rs ⟨r, i0 + 1 + Hn.length⟩ (.label (s.lbc + 1) false) :=
     hp.here' ([LItem.op ⟨o0, hdr.name, hdr.params⟩] ++ Hn) _ _ (by lst) (by len_omega)
-  have hpC : Placed cx.rs r (i0 + Hn.length + D.length + 2) Cn :=
+  have hpC : Placed cx.cp cx.rs r (i0 + Hn.length + D.length + 2) Cn :=
     hp.mid' ([LItem.op ⟨o0, hdr.name, hdr.params⟩] ++ Hn ++ [LItem.label (s.lbc + 1) false] ++ D) Cn _ (by lst) (by len_omega)
-  have hitE : itemAt cx.rs ⟨r, i0 + Hn.length + D.length + 2 + Cn.length⟩ = some (.label eL false) :=
+  have hitE : ItemC cx.cp cx.rs ⟨r, i0 + Hn.length + D.length + 2 + Cn.length⟩ (.label eL false) :=
     hp.here' ([LItem.op ⟨o0, hdr.name, hdr.params⟩] ++ Hn ++ [LItem.label (s.lbc + 1) false] ++ D ++ Cn) [] _ (by lst) (by len_omega)
-  have htgtE : target cx.rs eL = ⟨r, i0 + Hn.length + D.length + 2 + Cn.length⟩ :=
+  have htgtE : target cx.rs (cx.cp.σ eL) = ⟨r, i0 + Hn.length + D.length + 2 + Cn.length⟩ :=
     hp.lbl' cx.hlab ([LItem.op ⟨o0, hdr.name, hdr.params⟩] ++ Hn ++ [LItem.label (s.lbc + 1) false] ++ D ++ Cn) [] _ false (by lst) (by len_omega)
   have hlen : ([LItem.op ⟨o0, hdr.name, hdr.params⟩] ++ Hn ++ [LItem.label (s.lbc + 1) false] ++ D ++ Cn ++ [LItem.label eL false]).length =
       Hn.length + D.length + Cn.length + 3 := by len_omega
@@ -189,9 +190,9 @@ theorem switch_pm (cx : Cx) (fuel : Nat) (env : Src.Env) (he : EnvOK cx env) (hd
   have hendC : R2 cx m j ⟨r, i0 + Hn.length + D.length + 2 + Cn.length⟩ k := by
     refine R2.silL (lab_label hitE) ?_
     rw [LPos.next_eq r _ (i0 + (Hn.length + D.length + Cn.length + 3)) (by omega)]; exact hend
-  have hbrk : R2 cx m j (target cx.rs eL) k := by rw [htgtE]; exact hendC
+  have hbrk : R2 cx m j (target cx.rs (cx.cp.σ eL)) k := by rw [htgtE]; exact hendC
   have hexC : ExitsOK cx m j (s5.pushCase eL) (brkEnv env k) := by
-    refine ⟨fun cl bl rest hs => hex.loop cl bl rest (by rw [← hL5]; exact hs), fun e rest hs => ?_, hex.labs⟩
+    refine ⟨fun cl bl rest hs => hex.loop cl bl rest (by rw [← hL5]; exact hs), fun e rest hs => ?_, hex.labs, hex.ret⟩
     simp only [St.pushCase, List.cons.injEq] at hs
     obtain ⟨rfl, _⟩ := hs
     exact ⟨k, rfl, hbrk⟩
@@ -204,7 +205,7 @@ theorem switch_pm (cx : Cx) (fuel : Nat) (env : Src.Env) (he : EnvOK cx env) (hd
     | some d =>
       rw [hd] at dP hNnt
       obtain ⟨o, X, hDX, hX⟩ := dP
-      have hitJ : itemAt cx.rs ⟨r, i0 + Hn.length + 2⟩ = some (.ljump ⟨o, Gen.op_jump, []⟩ (some X)) :=
+      have hitJ : ItemC cx.cp cx.rs ⟨r, i0 + Hn.length + 2⟩ (.ljump ⟨o, Gen.op_jump, []⟩ (some X)) :=
         hp.here' ([LItem.op ⟨o0, hdr.name, hdr.params⟩] ++ Hn ++ [LItem.label (s.lbc + 1) false]) (Cn ++ [LItem.label eL false]) _
           (by rw [hDX]; lst) (by len_omega)
       exact R2.silL (lab_jump hitJ jump_isJump) (R2.silR (nodeStep_of hNnt) hX)
@@ -216,15 +217,15 @@ theorem switch_pm (cx : Cx) (fuel : Nat) (env : Src.Env) (he : EnvOK cx env) (hd
         | true => exact absurd hd (hdfl hh)
       obtain ⟨o, ho⟩ := hdops0 hnd
       have hDX : D = [LItem.ljump ⟨o, Gen.op_jump, []⟩ (some eL)] := by rw [dP, ho]
-      have hitJ : itemAt cx.rs ⟨r, i0 + Hn.length + 2⟩ = some (.ljump ⟨o, Gen.op_jump, []⟩ (some eL)) :=
+      have hitJ : ItemC cx.cp cx.rs ⟨r, i0 + Hn.length + 2⟩ (.ljump ⟨o, Gen.op_jump, []⟩ (some eL)) :=
         hp.here' ([LItem.op ⟨o0, hdr.name, hdr.params⟩] ++ Hn ++ [LItem.label (s.lbc + 1) false]) (Cn ++ [LItem.label eL false]) _
           (by rw [hDX]; lst) (by len_omega)
       exact R2.silL (lab_jump hitJ jump_isJump) (R2.silR (nodeStep_of hNnt) hbrk)
   have hfirst := tP (by rw [show i0 + 1 + Hn.length = i0 + 1 + Hn.length from rfl]; exact hnt)
   -- the switch op
-  have hstep := lab_op hit0 hn.2
+  have hstep := lab_op hit0 hn.2 (.inl hnr)
   simp only [hne, Bool.false_and, Bool.false_eq_true, if_false] at hstep
-  have hev : (⟨hdr.name, convParams hdr.params⟩ : Ev) = hdrEv hdr := rfl
+  have hev : (⟨hdr.name, convParams (hdr.params.map cx.cp.sub)⟩ : Ev) = Src.substEv env.subst (hdrEv hdr) := he.ev hdr.name hdr.params
   rw [hev, LPos.next_eq r i0 (i0 + 1) rfl] at hstep
   refine ⟨R2.emit hstep (nodeStep_of hNe) hfirst.1, ?_⟩
   have hpush := Pushes.push b (.halt (evInvalid "switch default"))
